@@ -5,6 +5,8 @@ import (
 	"math"
 	"strings"
 	"testing"
+
+	"verif/harness/ref"
 )
 
 // Native (coverage-guided) fuzz targets, run by the thorough tier for a fixed
@@ -146,5 +148,102 @@ func FuzzC20Ops(f *testing.F) {
 			c.T = s
 		}
 		fuzzEval(t, c20, c20Args{Call: c, Default: b[53]})
+	})
+}
+
+// fuzzPair decodes two operands; with flags&1 the second operand keeps its sign and coefficient but takes the
+// first operand's exponent plus gap, so that coverage feedback can steer the alignment distance directly instead
+// of having to match two 14-bit exponent fields by chance.
+func fuzzPair(hi1, lo1, hi2, lo2 uint64, gap int16, flags byte) (D, D) {
+	x, y := D{hi1, lo1}, D{hi2, lo2}
+	if flags&1 == 1 {
+		nx, ny := x.Num(), y.Num()
+		if nx.Class == ref.Finite && ny.Class == ref.Finite { // both finite
+			g := int(gap)
+			if flags&4 == 0 {
+				g = int(int8(gap)) // small gaps most of the time
+			}
+			y = DFin(ny.Neg, ny.Coef, clampExp(nx.Exp+g))
+		}
+	}
+	return x, y
+}
+
+var pairSeeds = [][4]uint64{
+	{0x3040000000000000, 1, 0x3040000000000000, 1},
+	{0x3040000000000000, 5, 0x303e000000000000, 5},
+	{0x30403ed09bead87c, 0x0378d8e63fffffff, 0x3040000000000000, 1},                  // 10^34 - 1
+	{0x5ffe27ffffffffff, 0xffffffffffffffff, 0x5ffe27ffffffffff, 0xffffffffffffffff}, // Cmax at Emax
+	{0x0000000000000000, 1, 0x0000000000000000, 1},                                   // smallest subnormal
+	{0x3040000000000001, 0, 0xb040000000000000, 1},                                   // 2^64 and -1
+	{0x6c10000000000000, 0, 0x3040000000000000, 7},                                   // steering form
+}
+
+func addPairSeeds(f *testing.F) {
+	for _, s := range pairSeeds {
+		for _, g := range []int16{0, 1, -1, 17, 34, 35, 36, -40} {
+			f.Add(s[0], s[1], s[2], s[3], g, byte(1))
+			f.Add(s[0], s[1], s[2], s[3], g, byte(3))
+		}
+		f.Add(s[0], s[1], s[2], s[3], int16(0), byte(0))
+	}
+}
+
+func FuzzC01AddSub(f *testing.F) {
+	addPairSeeds(f)
+	f.Fuzz(func(t *testing.T, hi1, lo1, hi2, lo2 uint64, gap int16, flags byte) {
+		x, y := fuzzPair(hi1, lo1, hi2, lo2, gap, flags)
+		fuzzEval(t, c01, c01Args{X: x, Y: y, Sub: flags&2 != 0})
+	})
+}
+
+func FuzzC02MulQuo(f *testing.F) {
+	addPairSeeds(f)
+	f.Fuzz(func(t *testing.T, hi1, lo1, hi2, lo2 uint64, gap int16, flags byte) {
+		x, y := fuzzPair(hi1, lo1, hi2, lo2, gap, flags)
+		fuzzEval(t, c02, c02Args{X: x, Y: y, Quo: flags&2 != 0})
+	})
+}
+
+func FuzzC03QuoRem(f *testing.F) {
+	addPairSeeds(f)
+	f.Fuzz(func(t *testing.T, hi1, lo1, hi2, lo2 uint64, gap int16, flags byte) {
+		x, y := fuzzPair(hi1, lo1, hi2, lo2, gap, flags)
+		if flags&2 != 0 {
+			x, y = y, x
+		}
+		fuzzEval(t, c03, c03Args{X: x, Y: y})
+	})
+}
+
+func FuzzC04Order(f *testing.F) {
+	for _, s := range pairSeeds {
+		f.Add(s[0], s[1], s[2], s[3], s[0]^1<<63, s[1], int16(0), byte(1))
+		f.Add(s[0], s[1], s[2], s[3], s[2], s[3]+1, int16(34), byte(1))
+	}
+	f.Fuzz(func(t *testing.T, hi1, lo1, hi2, lo2, hi3, lo3 uint64, gap int16, flags byte) {
+		x, y := fuzzPair(hi1, lo1, hi2, lo2, gap, flags)
+		_, z := fuzzPair(hi1, lo1, hi3, lo3, -gap, flags>>1)
+		fuzzEval(t, c04, c04Args{X: x, Y: y, Z: z})
+	})
+}
+
+func FuzzC08Quantise(f *testing.F) {
+	for _, s := range pairSeeds {
+		for _, dp := range []int32{0, 1, -1, 5, 34, -34, 6176, -6111, -6112, -6145, math.MaxInt32, math.MinInt32} {
+			f.Add(s[0], s[1], dp, false)
+			f.Add(s[0], s[1], dp, true)
+		}
+	}
+	f.Fuzz(func(t *testing.T, hi, lo uint64, dp int32, rel bool) {
+		v := D{hi, lo}
+		d := int(dp)
+		if rel {
+			// dp relative to the operand's own exponent: the cut falls inside or next to the coefficient
+			if n := v.Num(); n.Class == ref.Finite {
+				d = -n.Exp + int(int8(dp))
+			}
+		}
+		fuzzEval(t, c08, c08Args{V: v, DP: d})
 	})
 }
